@@ -69,6 +69,22 @@ def run(R):
                      "is absent from the active windows")
     R.rule("C09-R6", "report strategies are conjunctive: Report::report answers `all` over the configured strategies, with the "
                      "per-strategy tests len > 0 / close <= t / t % period == 0")
+    R.rule("C09-R7", "who may change the open windows: the set of active windows (and the application clock) is written only by the two "
+                     "ingest methods (replacement after reporting, clock advance), by scope() (insert-if-absent) and by the constructor - "
+                     "flush / stop / registration only read it, so flushing mid-stream does not empty intervals that are still open")
+    from lib import writers as W
+    allowed = {"active_windows": {"new": {"construct"}, "scope": {"insert"}, "add_to_window": {"assign"}, "add_probabilistic_to_window": {"assign"}},
+               "app_time": {"new": {"construct"}, "add_to_window": {"assign"}, "add_probabilistic_to_window": {"assign"}}}
+    nt = 0
+    for t in W.field_touches(prog, CSW, ["active_windows", "app_time"]):
+        nt += 1
+        nm = t.body.name
+        kind = t.op if t.kind == "refmut" else t.kind
+        ok = nm in allowed[t.field] and (kind in allowed[t.field][nm])
+        R.ob("C09-R7", "writer:%s:%s:%s" % (t.field, nm, kind), "`%s` is written by %s only in the expected way (%s)" % (t.field, nm, kind), ok,
+             where=t.body.where(t.ln), detail=None if ok else "an interval that is still open loses the items already assigned to it (or the clock moves) "
+             "outside the ingest discipline that R1/R2 check")
+    R.floor("C09-R7", "writes to the window state", nt, 6)
     r3(R)
     r6(R)
     bodies = {}
